@@ -74,6 +74,20 @@ def run(tier, res, is_known):
     pits = bm.periodic_items([FEES_QUICK[1]] if tier == 'quick' else FEES_QUICK, repeats=(40, 150) if tier == 'quick' else (40, 150, 400))
     product(periodic, pits, res, is_known, label='long periodic histories', chunk=4)
     res.rule += '; plus every cycle of <= 2 events over a 10-event alphabet repeated 40 / 150 (/ 400) times at one open instant'
+    if any(not is_known(v) for v in res.violations):
+        return
+    # very long ledgers: more than 10 000 (thorough: 25 000) history entries in one portfolio, amounts that are not
+    # whole cents (percentage fee, 16.667 transfers) - whatever the library does every n-th entry must keep the books
+    fee = FEES_QUICK[1]
+    cycles = [[['submit', '1', 'A', 3], ['submit', '1', 'A', -3], ['tick', 3]],
+              [['pf_sub', '1', '16.667'], ['pf_wd', '1', '16.667']]]
+    if tier != 'quick':
+        cycles += [[['submit', '1', 'Bq', 5], ['submit', '2', 'A', -8], ['pf_wd', '1', '16.667'], ['tick', 3]],
+                   [['submit', '2', 'A', 40000], ['submit', '2', 'A', -40000], ['tick', 3]]]
+    reps = [5200] if tier == 'quick' else [5200, 12600]
+    vits = [{'fee': list(fee), 'cycle': c, 'repeats': [r]} for c in cycles for r in reps]
+    product(periodic, vits, res, is_known, label='very long ledgers (> 10 000 entries)', chunk=1)
+    res.rule += '; plus %d ledgers of more than 10 000 entries' % len(vits)
 
 
 def replay(case):
